@@ -55,7 +55,10 @@ class Plan:
         return {}
 
 
-def _execute_raw(plan, scn):
+def _execute_raw(plan, scn, cf=None):
+    if scn.get("pristine"):
+        from . import pristine
+        return pristine.execute(scn, cf)
     g0 = engine.GIVEUP.count
     run = engine.Run(scn, oracles=plan.oracles).execute()
     viol = list(run.violations)
@@ -84,7 +87,7 @@ def execute(plan, scn):
             restore = None
         if restore is not None:
             try:
-                run2, viol2 = _execute_raw(plan, scn)
+                run2, viol2 = _execute_raw(plan, scn, cf="lift_bound")
             finally:
                 restore()
             if not viol2:
@@ -178,10 +181,17 @@ def run_batch(plan, tier, seed, n_runs=None, workers=None, wall_cap_s=None):
     results = []
     ctx = multiprocessing.get_context("fork")
     if workers == 1:
+        if getattr(plan, "uses_pristine", False):
+            from . import pristine
+            pristine.init_zygote()
         for c in chunks:
             results.append(_chunk_worker(c))
     else:
-        with ProcessPoolExecutor(max_workers=workers, mp_context=ctx) as ex:
+        init = None
+        if getattr(plan, "uses_pristine", False):
+            from . import pristine
+            init = pristine.init_zygote      # each worker forks its zygote before it executes anything
+        with ProcessPoolExecutor(max_workers=workers, mp_context=ctx, initializer=init) as ex:
             futs = [ex.submit(_chunk_worker, c) for c in chunks]
             last = time.time()
             for f in as_completed(futs, timeout=wall_cap_s):
@@ -294,6 +304,11 @@ def write_evidence(plan, tier, seed, agg, violations, extra=None):
         "notes_bit_level_only_differences": st.get("bit_notes", 0),
         "notes_exception_message_differences": st.get("msg_notes", 0),
         "known_findings_attributed": agg.get("known", {}),
+        "pristine_process_runs": st.get("pristine_runs", 0),
+        "pristine_reference_processes_forked": st.get("pristine_reference_processes", 0),
+        "pristine_comparisons": st.get("pristine_compared", 0),
+        "runs_aborted_after_runaway_op": st.get("runs_aborted_after_runaway_op", 0),
+        "walker_unavailable_degraded_comparisons": st.get("walker_unavailable", 0),
         "reach_warnings": reach_warnings(st),
     }
     if extra:
